@@ -359,7 +359,8 @@ def instances(tier):
     add('norm_shape', 'norm_shape', {}, 280)
     add('sql_note/table/K2', 'sql_note', {'site': 'table_note_inline', 'K': 2}, 240)
     add('sql_note/column/K2', 'sql_note', {'site': 'column_note', 'K': 2}, 240)
-    add('sql_expr/K2', 'sql_expression', {'K': 2}, 240)
+    if not quick:
+        add('sql_expr/K2', 'sql_expression', {'K': 2}, 240)
     add('sql_expr/bs/K2', 'sql_expression', {'K': 2, 'dom': 'bs'}, 240)
     add('sql_expr_fixed', 'sql_expr_fixed', {}, 240)
     if not quick:
